@@ -64,8 +64,9 @@ pub fn rec_fields(a: &Args, out: &mut Out) {
     let mut r = rng(a.seed(), 8);
     // ---- range observations
     let mut chunks: Vec<Chunk> = vec![];
+    let sweeps = a.num("sweeps", 1) == 1; // 0: only the raw per-pattern events (cheap run for the second build profile)
     for (fi, f) in table.iter().enumerate() {
-        if f.w <= 32 {
+        if sweeps && f.w <= 32 {
             let b = if f.w <= 16 { f.w } else { (f.w - 8).max(16) };
             let nch = 1u64 << (f.w - b);
             let stride = if f.w <= full_w || b <= sample_bits.saturating_sub(f.w - b) { 1 } else { 1u64 << (b - (sample_bits - (f.w - b)).min(b)) };
